@@ -255,14 +255,14 @@ def inline_locals(expr, at_node, depth=4):
     assigned expression, recursively: `k = (a, b); return hash(k)` reads as `hash((a, b))`.  Names without such a
     definition (parameters, loop variables, ambiguous ones) are left alone."""
     if depth == 0:
-        return copy.deepcopy(expr)
+        return clone(expr)
     mapping = {}
     for n in ast.walk(expr):
         if isinstance(n, ast.Name) and isinstance(n.ctx, ast.Load) and n.id not in mapping:
             v = reaching_value(n.id, at_node)
             if v is not None and not any(isinstance(x, ast.Name) and x.id == n.id for x in ast.walk(v)):
                 mapping[n.id] = inline_locals(v, at_node, depth - 1)
-    return subst(expr, mapping) if mapping else copy.deepcopy(expr)
+    return subst(expr, mapping) if mapping else clone(expr)
 
 
 def guard_atoms(node, stop=None):
@@ -286,14 +286,31 @@ def guard_atoms(node, stop=None):
     return out
 
 
+def clone(node):
+    """structural copy of an ast subtree: only the grammar fields are followed (the loader's `_parent` back links are not,
+    so the copy does not drag the whole module along as copy.deepcopy would)"""
+    if isinstance(node, list):
+        return [clone(x) for x in node]
+    if not isinstance(node, ast.AST):
+        return node
+    new = type(node)()
+    for f in node._fields:
+        if hasattr(node, f):
+            setattr(new, f, clone(getattr(node, f)))
+    for a in ('lineno', 'col_offset', 'end_lineno', 'end_col_offset'):
+        if hasattr(node, a):
+            setattr(new, a, getattr(node, a))
+    return new
+
+
 def subst(expr, mapping):
     """copy of expr with Name nodes replaced per mapping name -> ast expr"""
     class T(ast.NodeTransformer):
         def visit_Name(self, n):
             if n.id in mapping and isinstance(n.ctx, ast.Load):
-                return copy.deepcopy(mapping[n.id])
+                return clone(mapping[n.id])
             return n
-    return T().visit(copy.deepcopy(expr))
+    return T().visit(clone(expr))
 
 
 def const_value(e):
